@@ -703,3 +703,56 @@ def check_disk_memos(ctx, functions, rule='A2d', writers=('_write_to_cache',), r
                    f'the stored value depends on parameter(s) {missing} that do not feed the path (path <- {sorted(kd)}): '
                    f'a call restricted by them leaves a partial entry that unrestricted calls read back as complete')
     return n
+
+
+# ---------------------------------------------------------------------- A2r: placeholders in recursive memos
+def check_provisional_memo_entries(ctx, fns, rule='A2r'):
+    """A recursive function that memoises (`if k in C: return C[k]`) answers a re-entrant query for a key that is still
+    being computed with whatever is stored under it.  A constant stored under the current key *before* the recursion
+    (a "visited" placeholder) is therefore returned as the answer for every node on a cycle; the repository's idiom
+    for cycles is a separate in-progress set.  Expected count zero; one summary obligation records the functions
+    looked at."""
+    from ..cfg import node_exprs
+    looked = 0
+    for fn in fns:
+        if isinstance(fn.node, ast.Lambda):
+            continue
+        name = fn.node.name
+        if not any(isinstance(c, ast.Call) and isinstance(c.func, ast.Name) and c.func.id == name for c in walk_fn(fn)):
+            continue        # not directly recursive
+        cfg = build_cfg(fn)
+        # memo look-ups that return the stored value: `if K in C: return C[K]`
+        memos = set()
+        for nd in cfg.nodes:
+            if nd.kind == 'test' and isinstance(nd.ast, ast.Compare) and len(nd.ast.ops) == 1 and \
+                    isinstance(nd.ast.ops[0], ast.In):
+                k, c = norm(nd.ast.left), norm(nd.ast.comparators[0])
+                for m, lab in nd.succ:
+                    if lab == 'T' and m.kind == 'stmt' and isinstance(m.ast, ast.Return) and \
+                            m.ast.value is not None and norm(m.ast.value) == f'{c}[{k}]':
+                        memos.add((c, k))
+        if not memos:
+            continue
+        looked += 1
+        ctx.touch(fn)
+        rec_calls = [nd for nd in cfg.nodes if any(
+            e is not None and any(isinstance(c, ast.Call) and isinstance(c.func, ast.Name) and c.func.id == name
+                                  for c in walk_no_nested(e)) for e in node_exprs(nd))]
+        for nd in cfg.nodes:
+            if not (nd.kind == 'stmt' and isinstance(nd.ast, ast.Assign) and len(nd.ast.targets) == 1 and
+                    isinstance(nd.ast.targets[0], ast.Subscript) and isinstance(nd.ast.value, ast.Constant)):
+                continue
+            t = nd.ast.targets[0]
+            if (norm(t.value), norm(t.slice)) not in memos:
+                continue
+            if any(cfg.can_reach(nd, rc) for rc in rec_calls if rc is not nd):
+                ctx.ob(rule, fkey(fn, rule, f'provisional-memo-entry:{norm(t.value)}[{norm(t.slice)}]'), False,
+                       f'{fn.module.relpath}:{nd.lineno}',
+                       f'{fn.qualname} memoises in `{norm(t.value)}` and returns stored entries as answers: an entry is '
+                       f'stored only once the answer is known',
+                       f'`{short(nd.ast, 60)}` is stored before the recursion continues: a re-entrant query for the '
+                       f'same key (a derivation cycle) gets the placeholder as its answer')
+    ctx.ob(rule, f'{rule}:recursive-memos-store-answers-only', True, 'adsg_core/graph',
+           'recursive memoised functions store an entry only once the answer is known',
+           f'{looked} recursive memoised function(s) examined')
+    return looked
